@@ -164,7 +164,7 @@ def is_known_blocked_pair(t1: str, n0, n1):
     return False
 
 
-PROBE_KINDS = ("comment", "assert", "assert2", "subname", "nested-comment")
+PROBE_KINDS = ("comment", "assert", "assert2", "subname", "nested-comment", "after-approve", "after-reject", "after-err", "after-sub-return", "before-approve")
 
 
 def probe(job):
@@ -190,6 +190,20 @@ def probe(job):
         if kind == "assert2":
             a = pt.Assert(cond, pt.Txn.fee() > pt.Int(0), comment=text) if annotated else pt.Assert(cond, pt.Txn.fee() > pt.Int(0))
             return pt.Seq(a, pt.Return(pt.Int(1)))
+        if kind in ("after-approve", "after-reject", "after-err", "before-approve"):
+            # an annotation next to an exit op inside a branch that is followed by more code
+            ex = {"after-approve": pt.Approve, "after-reject": pt.Reject, "after-err": pt.Err, "before-approve": pt.Approve}[kind]()
+            arm = ex if not annotated else (pt.Seq(pt.Comment(text), ex) if kind == "before-approve" else pt.Seq(ex, pt.Comment(text)))
+            # (two shapes: the arm is followed by straight-line code / by another conditional, which changes the block order)
+            if version % 2 == 0:
+                return pt.Seq(pt.If(cond).Then(arm), x.store(pt.Int(3)), pt.Log(pt.Itob(x.load())), pt.Approve())
+            return pt.Seq(pt.If(cond).Then(pt.Seq(pt.Log(pt.Bytes("k")), arm)), pt.If(pt.Txn.fee() > pt.Int(7)).Then(pt.Log(pt.Bytes("j"))), pt.Reject())
+        if kind == "after-sub-return":
+            def g(a):
+                r = pt.Return(a + pt.Int(1))
+                return pt.Seq(pt.If(a > pt.Int(5)).Then(pt.Seq(r, pt.Comment(text)) if annotated else r), pt.If(a == pt.Int(0)).Then(pt.Log(pt.Bytes("zero"))), pt.Return(a))
+            sub = pt.Subroutine(pt.TealType.uint64)(g)
+            return pt.Return(sub(pt.Int(2)))
         if kind == "subname":
             def f(a):
                 return a + pt.Int(1)
@@ -313,7 +327,7 @@ def run(report: Report, tier, seed):
         pr = list(ex.map(probe, pj, chunksize=16))
     pbad = [r for r in pr if r["problem"]]
     report.bounded.append(Bounded(function="one annotation construct in a fixed small program", contract="instruction stream identical to the unannotated program (or the text is rejected)",
-                                  bound=f"{len(PROBE_KINDS)} constructs (Comment, nested Comment, Assert comment with 1 / 2 conditions, subroutine name) x {len(NASTY)} adversarial texts x versions 2..10",
+                                  bound=f"{len(PROBE_KINDS)} constructs (Comment, nested Comment, Assert comment with 1 / 2 conditions, subroutine name, a Comment right after / before an exit op inside a branch) x {len(NASTY)} adversarial texts x versions 2..10",
                                   cases=sum(r["ran"] for r in pr), distinct_nontrivial=len(pj), failures=len(pbad)))
     plj = placement_jobs()
     with ProcessPoolExecutor(max_workers=16) as ex:
